@@ -31,8 +31,8 @@ Local Open Scope string_scope.
    text with
      - a backslash in Fortran text, i.e. outside # lines (C-level escapes and
        splices, which the C pass applies before the Fortran cleaner),
-     - on a # line: a / inside a character constant, a backslash directly
-       before a backslash-newline splice (both necessary: witnesses below), a /
+     - on a # line: a backslash directly before a backslash-newline splice
+       (necessary: witness below), a /
        directly before a splice (conservative: the scanner defers the decision
        whether that / is text to the next line exactly as the cleaner does, so
        the case is kept out of the claim),
@@ -118,16 +118,17 @@ Proof.
 Qed.
 Print Assumptions C17_classification_refuted_code_splice.
 
-(* (5) on a # line a / inside a character constant opens a C comment for the
-       cleaner (here it swallows the line end and the next line becomes part of
-       the directive); (6) a backslash directly before a splice escapes the
-       first character of the next line, so that a blank there is text for the
-       scanner but leaves the cleaner's buffer blank *)
-Theorem C17_classification_refuted_slash_in_char_constant :
-  exists ls, parse_fortran ls = Ok [(true, [1; 2]); (false, [3])]%nat /\
-             S_lines ls = [(1, true); (2, false); (3, false)]%nat.
-Proof. exists (lines_of ("#'/*'" ++ nl ++ "*/'" ++ nl ++ "a" ++ nl)). vm_compute. split; reflexivity. Qed.
-Print Assumptions C17_classification_refuted_slash_in_char_constant.
+(* (5) a backslash directly before a splice escapes the first character of the
+       next line, so that a blank there is text for the scanner but leaves the
+       cleaner's buffer blank.
+   The former guard "no / inside a character constant of a # line" is gone: since
+   repo fix 684e2ba (character constants are scanned like string literals) the
+   cleaner no longer opens a comment there, and the theorem covers these texts.
+   A text of the kind that refuted the pre-fix cleaner is now an instance of the theorem: *)
+Example C17_slash_in_char_constant_covered :
+  let ls2 := lines_of ("#define A '/*' // '" ++ nl ++ "a = '*/'" ++ nl) in
+  wf ls2 = true /\ parse_fortran ls2 = Ok [(true, [1]); (false, [2])]%nat /\ S_lines ls2 = [(1, true); (2, false)]%nat.
+Proof. vm_compute. repeat split; reflexivity. Qed.
 
 Theorem C17_classification_refuted_escaped_splice :
   exists ls, parse_fortran ls = Ok [(true, [1])]%nat /\ S_lines ls = [(1, true); (2, true)]%nat.
